@@ -111,12 +111,48 @@ func ruleCallVM(c *Ctx, rule string) {
 // is part of the session).
 func ruleEvalSaveAllPaths(c *Ctx, rule string, run *ssa.Function, vmRunCall ssa.Instruction) {
 	l := c.L
-	from := afterStartedRun(l, vmRunCall)
+	// Every path from the run to a return stores the field, except through the
+	// edge on which the runner reported that it did not start the VM.  (Judged
+	// from the call, not from the "started" branch: a return between the call and
+	// the test of the report - `if err != nil { return }` - loses a failing
+	// fragment's state just the same.)
+	var notRan *ssa.If
+	if from := afterStartedRun(l, vmRunCall); from != vmRunCall {
+		for _, p := range from.Block().Preds {
+			if iff, ok := p.Instrs[len(p.Instrs)-1].(*ssa.If); ok && p.Succs[0] == from.Block() {
+				notRan = iff
+			}
+		}
+	}
 	for _, f := range []string{"Locals", "ModulesCache"} {
 		pred := viaDeep(storesStructField(l, modPath, "Eval", f))
-		_, ok := mustPassBefore(from, pred, isReturn)
-		if pred(from) {
-			ok = true
+		ok := true
+		seen := map[*ssa.BasicBlock]bool{}
+		var walk func(b *ssa.BasicBlock, idx int)
+		walk = func(b *ssa.BasicBlock, idx int) {
+			for _, ins := range b.Instrs[idx:] {
+				if pred(ins) {
+					return
+				}
+				if isReturn(ins) {
+					ok = false
+					return
+				}
+			}
+			for i, sc := range b.Succs {
+				if notRan != nil && b == notRan.Block() && i == 1 {
+					continue
+				}
+				if !seen[sc] {
+					seen[sc] = true
+					walk(sc, 0)
+				}
+			}
+		}
+		for i, ins := range vmRunCall.Block().Instrs {
+			if ins == vmRunCall {
+				walk(vmRunCall.Block(), i+1)
+			}
 		}
 		c.Check(rule, "Eval.Run | r."+f+" saved after the run", l.Pos(vmRunCall.Pos()), ok, "stored on every path from the run to a return",
 			"a path from the VM run to a return of Eval.Run (e.g. the failing-fragment path) does not store r."+f+": what the fragment did before it failed is lost for the next fragment")
